@@ -169,6 +169,7 @@ func (c *c14Col) report(key, what string, sc func() c14Scenario) {
 }
 
 func (c *c14Col) violations() int { c.mu.Lock(); defer c.mu.Unlock(); return c.count }
+func (c *c14Col) distinct() int   { c.mu.Lock(); defer c.mu.Unlock(); return len(c.seen) }
 func (c *c14Col) noteDrift(what string) {
 	c.mu.Lock()
 	c.drift[what]++
